@@ -1307,7 +1307,7 @@ def plan(tier, seed):
         shards.append({'kind': 'strings', 'part': i, 'of': 6})
     for i in range(6):
         shards.append({'kind': 'runs', 'part': i, 'of': 6})
-    nrt, nsm, nbs = (1680, 2000, 1000) if quick else (48000, 60000, 30000)
+    nrt, nsm, nbs = (1320, 1600, 840) if quick else (48000, 60000, 30000)
     for i in range(2):
         shards.append({'kind': 'stream', 'n': 3000 if quick else 100000, 'seed': shard_seed(seed, PROPERTY, 'st%d' % i)})
     for i in range(12):
